@@ -169,3 +169,8 @@ def run(ctx):
                'NOT preceded by psf_fseek (psf, 0, SEEK_END): an embedded write would overwrite the container in place'), None)
     rdwr = [n for (lv, n, rhs) in assigned_lvalues(f) if rhs is not None and f.s(rhs) == 'SFE_NO_EMBEDDED_RDWR']
     ctx.ob('EMBED', 'rdwr-refused', bool(rdwr), f.loc(rdwr[0]) if rdwr else f.loc(f.body), 'embedded RDWR %s' % ('refused with SFE_NO_EMBEDDED_RDWR' if rdwr else 'no longer refused'), None)
+
+    ctx.rule('FD-VALID', 'every test of a descriptor value against a constant is `< 0`, `>= 0` or an (in)equality with a negative code: descriptor 0 is valid and must be closed like any other', floor=6)
+    from engine.fdvalid import fd_valid
+    fd_valid(ctx, prog)
+
